@@ -83,18 +83,18 @@ func (self *Lexer) skipLineComment() {
 		self.advance()
 	}
 
-	self.advance()
+	// skip the line feed, if the comment is not ended by the end of input
+	if self.currentChar != nil {
+		self.advance()
+	}
 }
 
 func (self *Lexer) skipBlockComment() {
 	self.advance()
 	self.advance()
 
-	for {
-		if self.currentChar == nil || self.nextChar == nil {
-			break
-		}
-		if *self.currentChar == '*' && *self.nextChar == '/' {
+	for self.currentChar != nil {
+		if *self.currentChar == '*' && self.nextChar != nil && *self.nextChar == '/' {
 			self.advance()
 			self.advance()
 			break
